@@ -32,6 +32,17 @@ impl Measure for Metric {
     }
 }
 
+#[cfg(robopoker_verif)]
+impl Metric {
+    /// verification hooks: raw entries in table order, construction without normalisation
+    pub fn verif_entries(&self) -> Vec<(i64, Energy)> {
+        self.0.iter().map(|(p, d)| (i64::from(*p), *d)).collect()
+    }
+    pub fn verif_from_entries(entries: &[(i64, Energy)]) -> Self {
+        Self(entries.iter().map(|(p, d)| (Pair::from(*p), *d)).collect())
+    }
+}
+
 impl Metric {
     fn lookup(&self, x: &Abstraction, y: &Abstraction) -> Energy {
         self.0
